@@ -88,6 +88,36 @@ def stress_api(r, idx):
     return api, feats, retry, yaml
 
 
+def extended_multi_request(r, idx):
+    """Compute-style API: one service whose rpcs are polled through several extended-operation services."""
+    from google.cloud import extended_operations_pb2 as ex_pb2
+    from ..apigen import File
+    fp = apigen.dp.FileDescriptorProto(); ex_pb2.DESCRIPTOR.CopyToProto(fp)
+    pkg = ["google.cloud.fakecompute.v1", "acme.fleet.v2"][idx % 2]
+    f = File("/".join(pkg.split(".")) + "/compute.proto", pkg, deps=list(apigen.STD_DEPS) + ["google/cloud/extended_operations.proto"])
+    op = f.message("Operation")
+    st = op.enum("Status", ["STATUS_UNSPECIFIED", "DONE", "RUNNING"])
+    for i, (n, t) in enumerate([("name", "string"), ("status", ("enum", st)), ("error_code", "int32"), ("error_message", "string")], 1):
+        op.field(n, i, t)
+        op.proto.field[-1].options.Extensions[ex_pb2.operation_field] = i
+    scopes = r.sample(["Zone", "Region", "Global", "Org", "Folder", "Rack", "Aisle", "Bay"], r.randint(3, 6))
+    for sc in scopes:
+        greq = f.message(f"Get{sc}OperationRequest")
+        greq.field("operation", 1, "string", required=True).field("project", 2, "string", required=True)
+        greq.proto.field[0].options.Extensions[ex_pb2.operation_response_field] = "name"
+        ops = f.service(f"{sc}Operations", host="compute.example.com")
+        ops.rpc("Get", greq.fqn, op.fqn, http=("get", f"/v1/projects/{{project}}/{sc.lower()}/operations/{{operation}}"))
+        ops.proto.method[-1].options.Extensions[ex_pb2.operation_polling_method] = True
+    s = f.service("Instances", host="compute.example.com")
+    for i, sc in enumerate(scopes):
+        rq = f.message(f"Insert{sc}InstanceRequest")
+        rq.field("project", 1, "string", required=True).field("instance_name", 2, "string")
+        rq.proto.field[0].options.Extensions[ex_pb2.operation_request_field] = "project"
+        s.rpc(f"Insert{sc}Instance", rq.fqn, op.fqn, http=("post", f"/v1/projects/{{project}}/{sc.lower()}/instances"), body="*")
+        s.proto.method[-1].options.Extensions[ex_pb2.operation_service] = f"{sc}Operations"
+    return apigen.request([fp, f], to_generate=[f.proto.name], parameter="transport=rest")
+
+
 def diff_lines(a, b):
     la, lb = a.split("\n"), b.split("\n")
     for i, (x, y) in enumerate(zip(la, lb)):
@@ -137,6 +167,14 @@ def run_sweep(ctx, n, seeds):
             ctx.features["invalid-candidate"] += 1
             continue
         jobs.append((i, req.SerializeToString(), retry, yaml, seeds, feats))
+    for k in range(1 if ctx.quick() else 4):
+        i = 1000 + k
+        try:
+            req = extended_multi_request(env.rng("C10-extended", k), k)
+        except apigen.Invalid as e:
+            ctx.oblige(f"sweep #{i}: the extended-operations API is a valid input", False, str(e)[:300])
+            continue
+        jobs.append((i, req.SerializeToString(), None, None, seeds, ["extended-operations-several-services"]))
     results = gen.pmap(lambda j: run_seeds(j[:5]), jobs, workers=max(2, env.NCPU // 2))
     for (i, req_b, retry, yaml, _, feats), resd in zip(jobs, results):
         case = {"index": i, "request_b64": base64.b64encode(req_b).decode(), "retry": retry, "service_yaml": yaml, "seeds": seeds}
